@@ -8,11 +8,12 @@ Record sub_obs := {
   o_ret : N;                             (* when it returned *)
   o_nodes : list (list (N * list N));    (* per configured node, in input order: the calls it received
                                             as (time of the call, ids of the items), sorted by first id *)
-  o_cut : list (list N)                  (* per configured node: the instants at which a request to it was
+  o_cut : list (list (N * bool))         (* per configured node: the instants at which a request to it was
                                             abandoned because the context the submitter made it with was
-                                            finished (refused at entry / cut short in flight); the scripted
-                                            nodes honour the request context in every method, version
-                                            requests included, as the HTTP client does *)
+                                            finished (refused at entry / cut short in flight), and whether
+                                            that request was scripted never to be answered (hang); the
+                                            scripted nodes honour the request context in every method,
+                                            version requests included, as the HTTP client does *)
 }.
 
 Inductive cbody :=
@@ -143,9 +144,11 @@ Definition P_submit (inp : input) (obs : sub_obs) : bool :=
      else
        (* every node that was contacted got the whole payload exactly once *)
        forallb (fun ocs => is_nil ocs || whole_payload k len ocs) (o_nodes obs)
-       (* ... and none of its requests was abandoned by the submitter before the timeout (whatever that
-          node's other requests or the other nodes answered): offered means left to be answered *)
-       && forallb (forallb (fun t => T <=? t)) (o_cut obs)
+       (* ... and none of its requests that would have been answered was abandoned by the submitter
+          before the timeout (whatever that node's other requests or the other nodes answered): offered
+          means left to be answered.  (Giving up a request that is never answered, or any request once
+          the timeout has passed, delivers no less: that is left to `agree`.) *)
+       && forallb (forallb (fun c => snd c || (T <=? fst c))) (o_cut obs)
        (* concurrency >= number of nodes: every node is contacted at once, whatever the others do *)
        && ((i_conc inp <? n)%Z
            || forallb (fun ocs => negb (is_nil ocs) && forallb (fun oc => fst oc =? 0) ocs) (o_nodes obs))
